@@ -103,7 +103,15 @@ pub fn run_reuse(args: &Args, report: &mut Report) {
         let target = ["read.pinned.unlocked", "read.before_pin", "read.pinned", "read.before_pread", "read.after_pread", "range.entry", "retire.before_markers", "read.before_pin", "retire.before_release", "deferred.before_pread", "flush.before_publish"][rid as usize % 11];
         // a reader held back before it pins (it already holds the record it looked up) meets generations that
         // have been superseded, made durable elsewhere and retired in the meantime
-        let ctl = Arc::new(SchedCtl::new(args.seed ^ rid, 30, 200).target(target, 300, if target == "read.before_pin" { 2500 } else { 400 }));
+        let both = rid % 11 == 7 || rid % 11 == 1;
+        let mut ctl = SchedCtl::new(args.seed ^ rid, 30, 200).target(target, if both { 500 } else { 300 }, if both { 6000 } else if target == "read.before_pin" { 2500 } else { 400 });
+        if both {
+            // both sides of the retirement hand-over held at once: readers that already hold a record wait in front
+            // of the pin while the retirement pass sits between its reader check and its marker write - a pin that
+            // is still granted there gets its blocks overwritten
+            ctl = ctl.target("retire.before_markers", 900, 5000).target("read.pinned.unlocked", 500, 7000);
+        }
+        let ctl = Arc::new(ctl);
         hub().set_sched(Some(ctl.clone()));
         let nwriters = 2 + rng.usize_below(2);
         let nreaders = 2 + rng.usize_below(3);
